@@ -108,6 +108,14 @@ def finish (d : DS) (s : St replayCodec) (normal : String) : DS × String :=
   | some p => ({ d with st := some s }, s!"= z-mismatch {p}")
   | none => ({ d with st := some s }, normal)
 
+def readLine (d : DS) (r : St replayCodec × Bytes × List Int) : String :=
+  let s := r.1
+  let rets := if r.2.2.isEmpty then "-" else joinWith "," (r.2.2.map toString)
+  let calls := if s.calls.isEmpty then "-"
+    else joinWith "," (s.calls.map fun c => s!"{c.1}:{c.2}")
+  let acked := d.submitted - unwritten s.queue
+  s!"= plain {Hex.ofBytes r.2.1} rets={rets} net {Hex.ofBytes s.net} calls={calls} acked={acked} q={s.queue.length} pend={if pending s then 1 else 0}" ++ tail s
+
 def stepOp (d : DS) (recs : List ZRec) (toks : List String) : DS × String :=
   match d.st, toks with
   | none, ["init", m] =>
@@ -135,13 +143,11 @@ def stepOp (d : DS) (recs : List ZRec) (toks : List String) : DS × String :=
     match Hex.toBytes h with
     | none => (d, "= bad-op")
     | some b =>
-      let r := rxFragment rdFuel (load s recs) b
-      let rets := if r.2.2.isEmpty then "-" else joinWith "," (r.2.2.map toString)
-      finish d r.1 (s!"= plain {Hex.ofBytes r.2.1} rets={rets}" ++ tail r.1)
+      let r := rxFragment cwFuel rdFuel (load { s with net := [], calls := [] } recs) b
+      finish d r.1 (readLine d r)
   | some s, ["eof"] =>
-    let r := readLoop rdFuel { load s recs with inEof := true } [] []
-    let rets := if r.2.2.isEmpty then "-" else joinWith "," (r.2.2.map toString)
-    finish d r.1 (s!"= plain {Hex.ofBytes r.2.1} rets={rets}" ++ tail r.1)
+    let r := readLoop cwFuel rdFuel { load { s with net := [], calls := [] } recs with inEof := true } [] []
+    finish d r.1 (readLine d r)
   | some s, ["pend"] => (d, s!"= pend {if pending s then 1 else 0}")
   | some s, ["end"] =>
     -- xmpp_conn_release → (conn_disconnect if still connected) → _conn_reset → compression_free
